@@ -11,22 +11,23 @@ LEVEL_TEXT = ("Machine-checked Lean 4 theorems (all row-length vectors, all elem
               "exactly the rows it was built from (iteration/tolist/len/size/lengths/ravel/astype), accepts a flat buffer iff "
               "its size matches and then cuts it at the lengths; flat<->(row,col) maps invert each other for every placement of "
               "empty rows, index_array lists the row of every position, to/from numpy round-trips every rectangular matrix; "
+              "from_dict's legacy offsets form of any row-length vector, from any base, loads as the geometry of those lengths; "
               "the model is tied to /repo by a correspondence check "
               "(implementation vs compiled Lean model vs Lean spec vs CPython oracle on exhaustive small shapes + random shapes "
               "x dtypes, incl. geometry internals, unravel/ravel maps, to/from numpy, save/load, from_dict).")
 LEVEL_NOTE = ("Trusted: Lean kernel; axioms propext/Classical.choice/Quot.sound; the hand-written model of the constructor "
-              "(modelled, tied by differential correspondence only); numpy file I/O; dtype tags, save/load, from_dict and equals "
-              "are correspondence-only facets.")
+              "(modelled, tied by differential correspondence only); numpy file I/O; dtype tags and save/load "
+              "are correspondence-only facets (from_dict's legacy offsets form and equals have theorems: C01_offsets_form, C01_equals).")
 TECHNIQUE = "Lean 4 proof of model = list-of-rows spec; model tied to code by differential correspondence"
 DESIGN_REF = "7"
-LEAN_MODULES = ["NpsVerif.Props.C01", "NpsVerif.Props.C01B"]
+LEAN_MODULES = ["NpsVerif.Props.C01", "NpsVerif.Props.C01B", "NpsVerif.Props.C01C"]
 KERNELS = ()
 RULE = ("cases = (constructor kind: list-of-rows | flat+lengths (matching / mismatching) | geometry object) x "
         "row-length vector (exhaustive small scope + random, empty rows anywhere) x dtype; "
         "distinct = distinct (kind, lengths, dtype, data size); non-trivial = at least one row and the constructor accepts")
 EXHAUSTIVE = {"quick": False, "thorough": False}
 CORRESPONDENCE_ONLY = ["save/load round trip (numpy file I/O)", "dtype tags (same element type)",
-                       "from_dict legacy 'offsets' form", "equals"]
+                       "equals on float cells holding NaN (not judged)"]
 ASSUMPTIONS = ["np.savez/np.load round-trip arrays (numpy file I/O is trusted)",
                "Python is not run with -O (assert statements are refusals)"]
 TRUSTED = []
@@ -240,6 +241,15 @@ def run_impl(p):
                 b = RaggedShape.from_dict({"offsets": np.insert(ends, 0, 0)})
                 return [[int(x) for x in a.starts], [int(x) for x in a.lengths], [int(x) for x in b.starts], [int(x) for x in b.lengths]]
             o["dict_roundtrip"] = guarded(dict_rt)
+            def offsets_form():
+                # the legacy form from base 0 and from another base: [starts, lengths] of each
+                ends = np.cumsum(np.asarray(p["lens"], dtype=np.int64))
+                res = []
+                for base in (0, 5):
+                    b = RaggedShape.from_dict({"offsets": np.insert(ends, 0, 0) + base})
+                    res.append([[int(x) for x in b.starts], [int(x) for x in b.lengths]])
+                return res
+            o["offsets_form"] = guarded(offsets_form)
             return o
         return guarded(f)
     vals = _vals(p)
@@ -387,6 +397,7 @@ def oracle(p):
         o["ravel_idx_forms"] = canon([[True, v] for _ in range(6) for v in (full, [])])
         o["index_array"] = canon([r for r, _ in rc])
         o["dict_roundtrip"] = canon([starts, list(lens), starts, list(lens)])
+        o["offsets_form"] = canon([[starts, list(lens)], [starts, list(lens)]])
         return o
     vals = _vals(p)
     if p["kind"] == "flat" and p["ndata"] != sum(p["lens"]):
@@ -444,7 +455,7 @@ def decode_lean(p, resp):
             return refuse()
         o = {"k": "obs"}
         if p["kind"] == "shape":
-            for k in ("starts", "ends", "lengths", "size", "n_rows", "index_array"):
+            for k in ("starts", "ends", "lengths", "size", "n_rows", "index_array", "offsets_form"):
                 o[k] = canon(j[k])
             o["unravel"] = canon(j["unravel"])
             return o
